@@ -302,7 +302,7 @@ def run(tier, seed):
             ck.absorb(r)
     # --- clause B: every vector the project's test generator can emit
     from checks import c01b
-    c01b.run_clause_b(ck, tier, seed)
+    c01b.run_clause_b(ck, tier, seed, changed)
     # translator validation: executor (all inputs concrete) vs native twin on random rows
     tv_rows = [i for i in todo if C.rows[i]['name'] not in NEVER_RETURN][:(10 if tier == 'quick' else 60)]
     res = core.pmap(job_validate, [(i, seed) for i in tv_rows])
